@@ -445,8 +445,10 @@ public:
             J.attribute("dk", "parm");
             J.attribute("idx", (int64_t)pv->getFunctionScopeIndex());
         } else if (const auto* vd = dyn_cast<VarDecl>(d)) {
-            if (vd->isLocalVarDecl())
+            if (vd->isLocalVarDecl()) {
                 J.attribute("dk", vd->isStaticLocal() ? "staticlocal" : "local");
+                J.attribute("dl", (int64_t)(lineOf(vd->getLocation()) * 1000 + colOf(vd->getLocation())));
+            }
             else if (vd->isStaticDataMember()) {
                 J.attribute("dk", "staticmember");
                 J.attribute("qn", vd->getQualifiedNameAsString());
@@ -538,7 +540,7 @@ public:
             bool isConst = false;
             if (!noConst)
                 tryConst(e, isConst);
-            bool nc = noConst || isConst; // do not re-evaluate children of a constant
+            bool nc = noConst; (void)isConst; // children of a constant are evaluated too (rules look at sub-expressions)
 
             if (const auto* il = dyn_cast<IntegerLiteral>(e)) {
                 J.attribute("k", "int");
@@ -699,6 +701,7 @@ public:
                                 J.attribute("byref", cap.getCaptureKind() == LCK_This);
                             } else if (cap.capturesVariable()) {
                                 J.attribute("name", cap.getCapturedVar()->getNameAsString());
+                                J.attribute("dl", (int64_t)(lineOf(cap.getCapturedVar()->getLocation()) * 1000 + colOf(cap.getCapturedVar()->getLocation())));
                                 J.attribute("byref", cap.getCaptureKind() == LCK_ByRef);
                                 J.attribute("t", typeStr(cap.getCapturedVar()->getType()));
                                 if (const auto* pv = dyn_cast<ParmVarDecl>(cap.getCapturedVar()))
@@ -753,6 +756,7 @@ public:
         J.object([&] {
             J.attribute("k", "var");
             J.attribute("l", (int64_t)lineOf(vd->getLocation()));
+            J.attribute("dl", (int64_t)(lineOf(vd->getLocation()) * 1000 + colOf(vd->getLocation())));
             J.attribute("name", vd->getNameAsString());
             J.attribute("t", typeStr(vd->getType()));
             if (vd->isStaticLocal())
